@@ -90,6 +90,26 @@ def main():
                 mine = lineage(r)
                 if (set(mine[0]), set(mine[1]), set(mine[2]), set(mine[3])) != comp:
                     bad("script_lineage_is_the_combination_of_its_statements", script=script, got=str(mine), want=str(comp))
+    # the same statement text twice (and three times) in one script: still one holder and one reported statement per occurrence
+    for rep in (2, 3):
+        for base in STMTS[:3]:
+            for sep in (";", ";\n", "; -- c;omment\n"):
+                script = sep.join([base] * rep) + ";"
+                evals += 1
+                r = LineageRunner(script)
+                got = [norm(x) for x in r.statements()]
+                if got != [norm(base)] * rep:
+                    bad("ensures.the_kept_statements_in_order_nothing_else", script=script, got=got, want=[norm(base)] * rep)
+                elif len(r._stmt_holders) != rep:
+                    bad("ensures.one_holder_per_statement_in_order", script=script, holders=len(r._stmt_holders))
+    # leading / trailing blank lines and comments around a script do not change what is analysed
+    for lead, trail in (("\n\n  ", "\n\n"), ("-- header\n", "\n-- footer"), ("/* h */\n", "\n/* f */"), ("\t", " \t\n")):
+        script = lead + STMTS[0] + ";\n" + STMTS[2] + trail
+        evals += 1
+        r = LineageRunner(script)
+        got = [norm(x) for x in r.statements()]
+        if got != [norm(STMTS[0]), norm(STMTS[2])] or len(r._stmt_holders) != 2:
+            bad("ensures.the_kept_statements_in_order_nothing_else", script=script, got=got)
     # executable reading of the contract of helpers.split against the real function, on token soups (cheap: sqlparse only)
     import sqlparse
     from sqlparse.tokens import Punctuation
